@@ -24,7 +24,7 @@ REPLAYS = os.path.join(ROOT, "replays")
 CLASSES = os.path.join(ROOT, "build", "classes")
 TLA_JAR = "/opt/veriftools/tla/tla2tools.jar"
 CM_JAR = "/opt/veriftools/tla/CommunityModules-deps.jar"
-HARNESS = os.path.join(ROOT, "harness")
+HARNESS = os.environ.get("VERIF_HARNESS") or os.path.join(ROOT, "harness")  # override: a scratch copy built against a scratch worktree
 HARNESS_BINDIR = os.path.join(HARNESS, "target", "release")
 
 
